@@ -148,6 +148,16 @@ class Campaign:
 
 EXTREME_FIELD = {"opt_ndots_weird": "ndots", "opt_ndots_big": "ndots", "opt_timeout_huge": "timeout",
                  "opt_tries_huge": "tries"}
+NUM_OPT_FIELD = {"ndots": "ndots", "timeout": "timeout", "attempts": "tries"}
+
+
+def extreme_field(c):
+    """The field a numeric-extreme class controls (opt_num_<key>_<numeral>: from its name)."""
+    if c in EXTREME_FIELD:
+        return EXTREME_FIELD[c]
+    if isinstance(c, str) and c.startswith("opt_num_") and c in B.EXTREME:
+        return NUM_OPT_FIELD[c.split("_")[2]]
+    return None
 DEFAULT_VIEW = {"timeout": 2000, "tries": 3, "ndots": 1, "rotate": False, "domains": [], "lookups": "fb",
                 "sortlist": [], "servers": [("127.0.0.1", 53, 53, "")]}
 
@@ -190,8 +200,8 @@ def check_campaign(ctx, cam, stats):
         # numeric extremes: the field an extreme class controls is outside the allowed set
         ext = {}
         for c in list(rec["files"]["resolv"]) + [rec["env"]["res_options"]]:
-            if c in EXTREME_FIELD:
-                ext.setdefault(EXTREME_FIELD[c], set()).add(c)
+            if extreme_field(c):
+                ext.setdefault(extreme_field(c), set()).add(c)
         for f in list(diff):
             if f in ext and not all(view[k] == DEFAULT_VIEW[k] for k in DEFAULT_VIEW):
                 devs.append((sid, "range", (f,), json.dumps({"field": f, "observed": view[f], "allowed": exp[f],
@@ -429,6 +439,8 @@ def run_family(ctx, exe, name, cfg, stats, private, workers=8, timeout=900, simu
         recs.sort(key=lambda rec: repr(B.scenario_key(rec)))
     if not recs:
         raise vlib.MachineryError("TLC printed no scenario for %s" % cfg)
+    for rec in recs:
+        B.register_numeric(rec)
     ctx.log("%s: TLC %d distinct states, %d scenarios, %.1fs" % (name, r.distinct, len(recs), r.wall))
     cam = Campaign(ctx, exe, name, recs, private)
     cam.run()
@@ -554,11 +566,15 @@ def run(ctx):
                                "sandbox are read as they are; nsswitch/netsvc/svc scenarios skipped, lookups not compared")
     ctx.notes["private_etc"] = private
 
+    # num / numenv: the numeric extremes of ConfigNum.tla (port, tcpport, prefix length, ndots / timeout / attempts
+    # numerals) on nameserver / sortlist / options lines and in RES_OPTIONS
     fams = [("resolv3", "ConfigLines_gen.cfg"), ("nss", "ConfigLines_nss.cfg"), ("svc", "ConfigLines_svc.cfg"),
-            ("env", "ConfigLines_env.cfg")]
+            ("env", "ConfigLines_env.cfg"), ("num", "ConfigLines_num.cfg" if ctx.quick else "ConfigLines_num3.cfg"),
+            ("numenv", "ConfigLines_numenv.cfg")]
     cams = []
     for name, cfg in fams:
-        cams += run_family(ctx, exe, name, cfg, stats, private, reinit_maxlen=2 if name in ("resolv3", "env") else None)
+        cams += run_family(ctx, exe, name, cfg, stats, private, workers=2 if name.startswith("num") else 8,
+                           reinit_maxlen=2 if name in ("resolv3", "env", "num", "numenv") else None)
     if not ctx.quick:
         r = tlc_run(ctx, "Config/ConfigLines.tla", "ConfigLines_mc4.cfg", workers=8, timeout=1500)
         ctx.log("mc4: LineIndependent/InRange on %d specification states (%.0fs)" % (r.distinct, r.wall))
